@@ -8,10 +8,13 @@
 (*   end       nv, nd                 value the critic returned for the final next   *)
 (*                                    observation (stubbed input), next_done         *)
 (*   gaestep   t, adv                 row t of the advantages the hook exported      *)
-(*   returns   ret[t]                 returns the hook exported                      *)
-(*   perturbed adv[t]                 advantages of a second call in which everything*)
-(*                                    after the first episode boundary of each column*)
-(*                                    was replaced by unrelated numbers              *)
+(*   returns   observed, ret[t]       returns the hook exported (PPO; IPPO forms them *)
+(*                                    after flattening: observed = FALSE, checked in *)
+(*                                    the rows)                                      *)
+(*   perturbed adv[t]                 advantages of a second call in which every     *)
+(*                                    reward / value / next value after the first    *)
+(*                                    episode boundary of each column was replaced by*)
+(*                                    unrelated numbers (done flags unchanged)       *)
 (*   flatten   rows                   the rows handed to the minibatch loop, decoded:*)
 (*                                    obs, act, logp = <<t,e,g>> decoded from the    *)
 (*                                    observation / action / old log-prob of the row,*)
@@ -49,7 +52,8 @@ TGaeStep ==
 TReturns ==
   /\ Ev.op = "returns"
   /\ Returns
-  /\ Check("returns: returns = advantages + values", \A t \in Steps, c \in Cols : Ev.ret[t][c[1]][c[2]] = ret'[t][c])
+  /\ (Ev.observed => Check("returns: returns = advantages + values",
+                             \A t \in Steps, c \in Cols : Ev.ret[t][c[1]][c[2]] = ret'[t][c]))
 
 TPerturbed ==
   /\ Ev.op = "perturbed"
@@ -59,24 +63,24 @@ TPerturbed ==
               Ended(Roll, B, c) => \A t \in 1..B : Ev.adv[t][c[1]][c[2]] = adv[t][c])
   /\ UNCHANGED vars
 
-RowIds == {Ev.rows[k].obs : k \in 1..Len(Ev.rows)}
+NR == Len(Ev.rows)
 TFlatten ==
   /\ Ev.op = "flatten"
   /\ phase = "flatten"
-  /\ Check("rows-complete: every (t, env, agent) sample is in exactly one row (decoded from the observations)",
-           Len(Ev.rows) = NRows /\ RowIds = Ids)
+  /\ Check("rows-ids: the observation of every row is the observation of one (t, env, agent) of the rollout",
+           \A k \in 1..NR : <<Ev.rows[k].obs[1], Ev.rows[k].obs[2], Ev.rows[k].obs[3]>> \in Ids)
   /\ Check("rows-action: the action of a row is the action taken at the row's observation",
-           \A k \in 1..NRows : Ev.rows[k].act = Ev.rows[k].obs)
+           \A k \in 1..NR : Ev.rows[k].act = Ev.rows[k].obs)
   /\ Check("rows-logp: the old log-prob of a row belongs to the row's observation and action",
-           \A k \in 1..NRows : Ev.rows[k].logp = Ev.rows[k].obs)
+           \A k \in 1..NR : Ev.rows[k].logp = Ev.rows[k].obs)
   /\ Check("rows-value: the old value of a row is the value recorded for the row's (t, env, agent)",
-           \A k \in 1..NRows : LET id == Ev.rows[k].obs IN Ev.rows[k].val = S * val[id[1]][Col(id)])
+           \A k \in 1..NR : LET id == Ev.rows[k].obs IN Ev.rows[k].val = S * val[id[1]][Col(id)])
   /\ Check("rows-advantage: the advantage of a row is the estimate computed for the row's (t, env, agent)",
-           \A k \in 1..NRows : LET id == Ev.rows[k].obs IN Ev.rows[k].adv = adv[id[1]][Col(id)])
+           \A k \in 1..NR : LET id == Ev.rows[k].obs IN Ev.rows[k].adv = adv[id[1]][Col(id)])
   /\ Check("rows-return: the return of a row is the return computed for the row's (t, env, agent)",
-           \A k \in 1..NRows : LET id == Ev.rows[k].obs IN Ev.rows[k].ret = ret[id[1]][Col(id)])
+           \A k \in 1..NR : LET id == Ev.rows[k].obs IN Ev.rows[k].ret = ret[id[1]][Col(id)])
   \* all value fields verified: the row's estimate fields carry the id of its observation
-  /\ FlattenRows([k \in 1..NRows |-> LET r == Ev.rows[k] IN
+  /\ FlattenRows([k \in 1..NR |-> LET r == Ev.rows[k] IN
                    [obs |-> r.obs, act |-> r.act, logp |-> r.logp, adv |-> r.obs, ret |-> r.obs, val |-> r.obs]])
   /\ act' = [op |-> "flatten"]
 
